@@ -24,11 +24,11 @@ Record PInv (fixed : bool) (s : pst) : Prop := mkPInv {
   (* the pooled thread *)
   pi_w : match p_w s with
          | WWait => match p_start s with
-                    | SWork k => S k = p_next s /\ p_inpool s = false /\ p_runs s k = 0 /\ p_joinable s = p_jn s k
+                    | SWork k => S k = p_next s /\ p_inpool s = false /\ p_runs s k = 0 /\ p_joinable s = p_jn s k /\ p_joined s k = 0
                     | SNone => p_joining s = false
                     end
-         | WRun k => S k = p_next s /\ p_start s = SWork k /\ p_inpool s = false /\ p_runs s k = 1 /\ p_done s k = false /\ p_joinable s = p_jn s k
-         | WDone k => S k = p_next s /\ p_start s = SWork k /\ p_inpool s = false /\ p_runs s k = 1 /\ p_done s k = true /\ p_joinable s = p_jn s k
+         | WRun k => S k = p_next s /\ p_start s = SWork k /\ p_inpool s = false /\ p_runs s k = 1 /\ p_done s k = false /\ p_joinable s = p_jn s k /\ p_joined s k = 0
+         | WDone k => S k = p_next s /\ p_start s = SWork k /\ p_inpool s = false /\ p_runs s k = 1 /\ p_done s k = true /\ p_joinable s = p_jn s k /\ p_joined s k = 0
          | WJoinWait k => S k = p_next s /\ p_start s = SWork k /\ p_inpool s = false /\ p_runs s k = 1 /\ p_done s k = true /\
                           p_joinable s = true /\ p_jn s k = true /\ p_j s = JIdle /\
                           ((p_jcalled s k = false /\ p_wnote s = false /\ p_joining s = true /\ p_joined s k = 0) \/
@@ -43,7 +43,9 @@ Record PInv (fixed : bool) (s : pst) : Prop := mkPInv {
                        (p_jnote s = true /\ p_joining s = false /\ p_start s = SNone /\ p_w s = WWait /\ p_done s k = true))
          end;
   (* the joining flag is only ever set by a waiting side *)
-  pi_jg : p_joining s = true -> (exists k, p_j s = JWait k) \/ (exists k, p_w s = WJoinWait k)
+  pi_jg : p_joining s = true -> (exists k, p_j s = JWait k) \/ (exists k, p_w s = WJoinWait k);
+  (* a join that was called has returned or is waiting *)
+  pi_cj : forall k, p_jcalled s k = true -> p_joined s k = 1 \/ p_j s = JWait k
 }.
 
 Lemma pinv_init : forall fixed, PInv fixed pinit.
@@ -51,6 +53,7 @@ Proof.
   intro. constructor; cbn; auto.
   - intros k. repeat split; auto; intros; try discriminate; lia.
   - intros k H. lia.
+  - discriminate.
   - discriminate.
 Qed.
 
@@ -66,29 +69,342 @@ Ltac upf_tac :=
 
 Ltac fin := cbn in *; intros; upf_tac; subst; repeat split; intros; try discriminate; try congruence; try lia; auto.
 
+Ltac ksame K := let k' := fresh "k'" in intro k'; apply (K k').
+
 Lemma pstep_inv : forall fixed s l, allowed fixed l = true -> PInv fixed s -> PInv fixed (pstep fixed s l).
 Proof.
   intros fixed s l Al I.
-  destruct I as [(F1 & F2 & F3) K UJ PL W J JG].
+  destruct I as [(F1 & F2 & F3) K UJ PL W J JG CJ].
   destruct s as [st jb jg ip w j nx wn jnn jn runs dn jd jc ea dp ru]. cbn in *. subst ea dp ru.
-  destruct l as [jn0| | | | |k| | |]; cbn [pstep p_inpool p_next p_w p_start p_j p_joining p_joinable p_wnote p_jnote p_jn p_runs p_done p_joined p_jcalled p_early p_dput p_reuse].
+  destruct l as [jn0| | | | |k0| | |]; cbn [pstep p_inpool p_next p_w p_start p_j p_joining p_joinable p_wnote p_jnote p_jn p_runs p_done p_joined p_jcalled p_early p_dput p_reuse].
   - (* PCreate *)
     destruct ip; [|constructor; cbn; auto].
     destruct (PL eq_refl) as (-> & -> & -> & ->).
-    constructor; cbn; auto.
-    + intro k. destruct (K k) as (a & b & c & d & e). repeat split; auto. intro H. apply e. lia.
+    destruct (K nx) as (_ & _ & _ & _ & e). destruct (e (le_n _)) as (r1 & r2 & r3 & r4).
+    constructor; cbn.
+    + auto.
+    + intro k. destruct (K k) as (a & b & c & d & e'). split; [auto|split; [auto|split; [auto|split; [auto|intro H; apply e'; lia]]]].
     + intros k Hk Hj Hc. unfold upf in Hj. destruct (Nat.eqb k nx) eqn:E.
       * apply Nat.eqb_eq in E. subst. auto.
       * apply Nat.eqb_neq in E. assert (k < nx) by lia. destruct (UJ k H Hj Hc) as (_ & _ & _ & X). discriminate.
     + discriminate.
-    + destruct (K nx) as (_ & _ & _ & _ & e). destruct (e (le_n _)) as (r & _). unfold upf. rewrite Nat.eqb_refl. auto.
+    + unfold upf. rewrite Nat.eqb_refl. auto.
+    + exact Logic.I.
     + discriminate.
-  - admit.
-  - admit.
-  - admit.
-  - admit.
-  - admit.
-  - admit.
-  - admit.
-  - admit.
-Admitted.
+    + exact CJ.
+  - (* PTake *)
+    destruct w as [|kw|kw|kw]; try (constructor; cbn; auto; fail).
+    destruct st as [|k]; [constructor; cbn; auto|].
+    destruct W as (w1 & w2 & w3 & w4 & w5). subst ip.
+    assert (Dk : dn k = false). { destruct (dn k) eqn:E; auto. destruct (K k) as (_ & b & _). specialize (b E). lia. }
+    constructor; cbn.
+    + auto.
+    + intro k'. destruct (K k') as (a & b & c & d & e). unfold upf. destruct (Nat.eqb k' k) eqn:E.
+      * apply Nat.eqb_eq in E. subst k'. rewrite w3. repeat split; auto; intros; try lia; try (exfalso; lia).
+        all: match goal with H : _ = 1 |- _ => destruct (d H); auto end.
+      * auto.
+    + exact UJ.
+    + discriminate.
+    + unfold upf. rewrite Nat.eqb_refl. repeat split; auto; lia.
+    + destruct j as [|kj]; auto. destruct J as (j1 & j2 & j3 & j4 & j5 & [j6|j6]);
+        [|destruct j6 as (_ & _ & X & _); discriminate].
+      repeat split; auto; try (left; destruct j6 as (a & b & c & d & e); repeat split; auto).
+    + intro H. destruct (JG H) as [X|[k0 X]]; auto. discriminate.
+    + exact CJ.
+  - (* PFinish *)
+    destruct w as [|k|kw|kw]; try (constructor; cbn; auto; fail).
+    destruct W as (w1 & w2 & w3 & w4 & w5 & w6 & w7). subst ip st.
+    constructor; cbn.
+    + auto.
+    + intro k'. destruct (K k') as (a & b & c & d & e). unfold upf. destruct (Nat.eqb k' k) eqn:E.
+      * apply Nat.eqb_eq in E. subst k'. repeat split; auto; intros; try lia; try (exfalso; lia); try (destruct (d H); auto).
+      * auto.
+    + exact UJ.
+    + discriminate.
+    + unfold upf. rewrite Nat.eqb_refl. repeat split; auto.
+    + destruct j as [|kj]; auto. destruct J as (j1 & j2 & j3 & j4 & j5 & [j6|j6]);
+        [|destruct j6 as (_ & _ & X & _); discriminate].
+      repeat split; auto; try (left; destruct j6 as (a & b & c & d & e); repeat split; auto).
+    + intro H. destruct (JG H) as [X|[k0 X]]; auto. discriminate.
+    + exact CJ.
+  - (* PAfter *)
+    destruct w as [|kw|k|kw]; try (constructor; cbn; auto; fail).
+    destruct W as (w1 & w2 & w3 & w4 & w5 & w6 & w7). subst ip st.
+    destruct jg.
+    + (* a joiner is waiting *)
+      destruct (JG eq_refl) as [[kj X]|[kj X]]; [|discriminate]. subst j.
+      destruct J as (j1 & j2 & j3 & j4 & j5 & [j6|j6]); [|destruct j6 as (_ & X & _); discriminate].
+      assert (kj = k) by lia. subst kj.
+      constructor; cbn.
+      * auto.
+      * ksame K.
+      * intros k1 Hk Hj Hc. destruct (UJ k1 Hk Hj Hc) as (X & _). assert (k1 = k) by lia. subst. congruence.
+      * discriminate.
+      * reflexivity.
+      * repeat split; auto; try (right; repeat split; auto).
+      * discriminate.
+      * exact CJ.
+    + destruct jb.
+      * (* joinable: wait for the joiner *)
+        assert (Jj : j = JIdle).
+        { destruct j as [|kj]; auto. destruct J as (_ & _ & _ & _ & _ & [j6|j6]).
+          - destruct j6 as (_ & X & _). discriminate.
+          - destruct j6 as (_ & _ & X & _). discriminate. }
+        subst j.
+        assert (Jc : jc k = false).
+        { destruct (jc k) eqn:E; auto. destruct (CJ k E) as [X|X]; [lia|discriminate]. }
+        constructor; cbn.
+        -- auto.
+        -- ksame K.
+        -- exact UJ.
+        -- discriminate.
+        -- repeat split; auto; try (left; repeat split; auto).
+        -- exact Logic.I.
+        -- intros _. right. eauto.
+        -- exact CJ.
+      * (* not joinable: recycle *)
+        assert (Jj : j = JIdle).
+        { destruct j as [|kj]; auto. destruct J as (_ & _ & _ & _ & _ & [j6|j6]).
+          - destruct j6 as (_ & X & _). discriminate.
+          - destruct j6 as (_ & _ & X & _). discriminate. }
+        subst j.
+        constructor; cbn.
+        -- auto.
+        -- ksame K.
+        -- intros k1 Hk Hj Hc. destruct (UJ k1 Hk Hj Hc) as (_ & _ & X & _). discriminate.
+        -- auto.
+        -- reflexivity.
+        -- exact Logic.I.
+        -- discriminate.
+        -- exact CJ.
+  - (* PWWake *)
+    destruct w as [|kw|kw|k]; try (constructor; cbn; auto; fail).
+    destruct W as (w1 & w2 & w3 & w4 & w5 & w6 & w7 & w8 & w9). subst ip st j jb.
+    match goal with |- PInv _ (if ?g then _ else _) => destruct g eqn:Go end; [|constructor; cbn; auto; repeat split; auto].
+    assert (Second : jc k = true /\ jd k = 1).
+    { destruct w9 as [(a & b & c & d)|(a & b & c & d)]; auto. exfalso. subst. destruct fixed; cbn in *; discriminate. }
+    destruct Second as [Jc Jd].
+    constructor; cbn.
+    + auto.
+    + ksame K.
+    + intros k1 Hk Hj Hc. destruct (UJ k1 Hk Hj Hc) as (X & _). assert (k1 = k) by lia. subst. congruence.
+    + auto.
+    + reflexivity.
+    + exact Logic.I.
+    + discriminate.
+    + exact CJ.
+  - (* PJoin *)
+    destruct j as [|kj]; try (constructor; cbn; auto; fail).
+    destruct (Nat.ltb k0 nx && jn k0 && negb (jc k0)) eqn:G; [|constructor; cbn; auto].
+    apply andb_true_iff in G. destruct G as [G G3]. apply andb_true_iff in G. destruct G as [G1 G2].
+    apply Nat.ltb_lt in G1. apply negb_true_iff in G3.
+    destruct (UJ k0 G1 G2 G3) as (u1 & u2 & u3 & u4). subst st jb ip. cbn.
+    destruct jg.
+    + (* the pooled thread is waiting for us *)
+      destruct (JG eq_refl) as [[kj X]|[kj X]]; [discriminate|]. subst w.
+      destruct W as (w1 & w2 & w3 & w4 & w5 & w6 & w7 & w8 & w9).
+      assert (kj = k0) by lia. subst kj.
+      destruct w9 as [(a & b & c & d)|(a & _)]; [|congruence].
+      constructor; cbn.
+      * rewrite w5. auto.
+      * intro k'. destruct (K k') as (a' & b' & c' & d' & e'). unfold upf. destruct (Nat.eqb k' k0) eqn:E.
+        -- apply Nat.eqb_eq in E. subst k'. rewrite d. repeat split; auto; intros; try lia; try (exfalso; lia).
+        -- auto.
+      * intros k1 Hk Hj Hc. unfold upf in Hc. destruct (Nat.eqb k1 k0) eqn:E; [discriminate|].
+        apply Nat.eqb_neq in E. destruct (UJ k1 Hk Hj Hc) as (X & _). lia.
+      * discriminate.
+      * unfold upf. rewrite Nat.eqb_refl. repeat split; auto. right. rewrite d. destruct fixed; repeat split; auto.
+      * exact Logic.I.
+      * intros _. right. eauto.
+      * intros k1 H. unfold upf in *. destruct (Nat.eqb k1 k0) eqn:E.
+        -- left. rewrite d. reflexivity.
+        -- destruct (CJ k1 H) as [X|X]; auto.
+    + (* wait for the pooled thread *)
+      assert (Nw : match w with WJoinWait _ => False | _ => True end).
+      { destruct w as [|kw|kw|kw]; auto. destruct W as (w1 & _ & _ & _ & _ & _ & _ & _ & [(_ & _ & X & _)|(X & _)]).
+        - discriminate.
+        - assert (kw = k0) by lia. subst. congruence. }
+      assert (Jd : jd k0 = 0).
+      { destruct w as [|kw|kw|kw]; cbn in *.
+        - destruct W as (_ & _ & _ & _ & X). exact X.
+        - destruct W as (_ & X & _ & _ & _ & _ & Y). inversion X. subst. exact Y.
+        - destruct W as (_ & X & _ & _ & _ & _ & Y). inversion X. subst. exact Y.
+        - contradiction. }
+      constructor; cbn.
+      * auto.
+      * intro k'. destruct (K k') as (a' & b' & c' & d' & e'). unfold upf. destruct (Nat.eqb k' k0) eqn:E.
+        -- apply Nat.eqb_eq in E. subst k'. repeat split; auto; intros; try lia; try (exfalso; lia); try (destruct (d' H); auto).
+        -- auto.
+      * intros k1 Hk Hj Hc. unfold upf in Hc. destruct (Nat.eqb k1 k0) eqn:E; [discriminate|].
+        apply Nat.eqb_neq in E. destruct (UJ k1 Hk Hj Hc) as (X & _). lia.
+      * discriminate.
+      * destruct w as [|kw|kw|kw]; auto. contradiction.
+      * unfold upf. rewrite Nat.eqb_refl. repeat split; auto. left. repeat split; auto.
+      * intros _. left. eauto.
+      * intros k1 H. unfold upf in *. destruct (Nat.eqb k1 k0) eqn:E.
+        -- right. apply Nat.eqb_eq in E. subst. reflexivity.
+        -- destruct (CJ k1 H) as [X|X]; auto. discriminate.
+  - (* PJWake *)
+    destruct j as [|k]; try (constructor; cbn; auto; fail).
+    destruct J as (j1 & j2 & j3 & j4 & j5 & j6). subst ip.
+    match goal with |- PInv _ (if ?g then _ else _) => destruct g eqn:Go end; [|constructor; cbn; auto; repeat split; auto].
+    assert (B : jnn = true /\ jg = false /\ st = SNone /\ w = WWait /\ dn k = true).
+    { destruct j6 as [(a & b & c & d)|X]; auto. exfalso. subst. destruct fixed; cbn in *; discriminate. }
+    destruct B as (b1 & b2 & b3 & b4 & b5). subst.
+    constructor; cbn.
+    + rewrite b5. auto.
+    + intro k'. destruct (K k') as (a & b & c & d & e). unfold upf. destruct (Nat.eqb k' k) eqn:E.
+      * apply Nat.eqb_eq in E. subst k'. rewrite j4. repeat split; auto; intros; try lia; try (exfalso; lia).
+        all: destruct (e H) as (_ & _ & X & _); congruence.
+      * auto.
+    + intros k1 Hk Hj Hc. destruct (UJ k1 Hk Hj Hc) as (_ & X & _). discriminate.
+    + auto.
+    + reflexivity.
+    + exact Logic.I.
+    + discriminate.
+    + intros k1 H. unfold upf. destruct (Nat.eqb k1 k) eqn:E.
+      * left. apply Nat.eqb_eq in E. subst. rewrite j4. reflexivity.
+      * destruct (CJ k1 H) as [X|X]; auto. inversion X. subst. rewrite Nat.eqb_refl in E. discriminate.
+  - (* PIntW *)
+    destruct w as [|kw|kw|k]; try (constructor; cbn; auto; fail).
+    destruct W as (w1 & w2 & w3 & w4 & w5 & w6 & w7 & w8 & w9). subst ip st j jb.
+    match goal with |- PInv _ (if ?g then _ else _) => destruct g eqn:Go end; [|constructor; cbn; auto; repeat split; auto].
+    assert (Second : jc k = true /\ jd k = 1).
+    { destruct w9 as [(a & b & c & d)|(a & b & c & d)]; auto. exfalso. subst. destruct fixed; cbn in *; discriminate. }
+    destruct Second as [Jc Jd].
+    constructor; cbn.
+    + auto.
+    + ksame K.
+    + intros k1 Hk Hj Hc. destruct (UJ k1 Hk Hj Hc) as (X & _). assert (k1 = k) by lia. subst. congruence.
+    + auto.
+    + reflexivity.
+    + exact Logic.I.
+    + discriminate.
+    + exact CJ.
+  - (* PIntJ *)
+    destruct j as [|k]; try (constructor; cbn; auto; fail).
+    destruct J as (j1 & j2 & j3 & j4 & j5 & j6). subst ip.
+    match goal with |- PInv _ (if ?g then _ else _) => destruct g eqn:Go end; [|constructor; cbn; auto; repeat split; auto].
+    assert (B : jnn = true /\ jg = false /\ st = SNone /\ w = WWait /\ dn k = true).
+    { destruct j6 as [(a & b & c & d)|X]; auto. exfalso. subst. destruct fixed; cbn in *; discriminate. }
+    destruct B as (b1 & b2 & b3 & b4 & b5). subst.
+    constructor; cbn.
+    + rewrite b5. auto.
+    + intro k'. destruct (K k') as (a & b & c & d & e). unfold upf. destruct (Nat.eqb k' k) eqn:E.
+      * apply Nat.eqb_eq in E. subst k'. rewrite j4. repeat split; auto; intros; try lia; try (exfalso; lia).
+        all: destruct (e H) as (_ & _ & X & _); congruence.
+      * auto.
+    + intros k1 Hk Hj Hc. destruct (UJ k1 Hk Hj Hc) as (_ & X & _). discriminate.
+    + auto.
+    + reflexivity.
+    + exact Logic.I.
+    + discriminate.
+    + intros k1 H. unfold upf. destruct (Nat.eqb k1 k) eqn:E.
+      * left. apply Nat.eqb_eq in E. subst. rewrite j4. reflexivity.
+      * destruct (CJ k1 H) as [X|X]; auto. inversion X. subst. rewrite Nat.eqb_refl in E. discriminate.
+Qed.
+
+(* every earlier round is complete; when the pooled thread is idle with an empty block, all rounds are *)
+Definition PInv2 (s : pst) : Prop :=
+  (forall k, S k < p_next s -> p_done s k = true) /\
+  (p_w s = WWait -> p_start s = SNone -> forall k, k < p_next s -> p_done s k = true).
+
+Lemma pstep_inv2 : forall fixed s l, PInv fixed s -> PInv2 s -> PInv2 (pstep fixed s l).
+Proof.
+  intros fixed s l I [O Idle].
+  destruct I as [_ K UJ PL W J JG CJ].
+  destruct s as [st jb jg ip w j nx wn jnn jn runs dn jd jc ea dp ru]. cbn in *.
+  assert (Cur : forall k, (w = WDone k \/ w = WJoinWait k) -> forall k1, k1 < nx -> dn k1 = true).
+  { intros k [->| ->] k1 H1.
+    - destruct W as (w1 & _ & _ & _ & w5 & _). destruct (Nat.eq_dec k1 k); [subst; auto|apply O; lia].
+    - destruct W as (w1 & _ & _ & _ & w5 & _). destruct (Nat.eq_dec k1 k); [subst; auto|apply O; lia]. }
+  destruct l as [jn0| | | | |k0| | |]; cbn [pstep p_inpool p_next p_w p_start p_j p_joining p_joinable p_wnote p_jnote p_jn p_runs p_done p_joined p_jcalled p_early p_dput p_reuse].
+  - destruct ip; [|split; auto]. destruct (PL eq_refl) as (-> & -> & _). split; cbn.
+    + intros k H. apply Idle; auto. lia.
+    + intros _ X. discriminate.
+  - destruct w; try (split; auto; fail). destruct st; split; cbn; auto; intros; discriminate.
+  - destruct w as [|k|k|k]; try (split; auto; fail). split; cbn.
+    + intros k1 H. unfold upf. destruct (Nat.eqb k1 k); auto.
+    + discriminate.
+  - destruct w as [|k|k|k]; try (split; auto; fail).
+    pose proof (Cur k (or_introl eq_refl)) as C.
+    destruct jg; [|destruct jb]; split; cbn; auto; intros; try discriminate; auto.
+  - destruct w as [|k|k|k]; try (split; auto; fail).
+    pose proof (Cur k (or_intror eq_refl)) as C.
+    match goal with |- PInv2 (if ?g then _ else _) => destruct g end; split; cbn; auto; intros; try discriminate; auto.
+  - destruct j; [|split; auto].
+    destruct (_ && _); [|split; auto]. cbn.
+    destruct (negb jb); [split; auto|]. destruct st; [split; auto|].
+    destruct jg; split; cbn; auto.
+  - destruct j as [|k]; [split; auto|].
+    match goal with |- PInv2 (if ?g then _ else _) => destruct g end; split; cbn; auto.
+  - destruct w as [|k|k|k]; try (split; auto; fail).
+    pose proof (Cur k (or_intror eq_refl)) as C.
+    match goal with |- PInv2 (if ?g then _ else _) => destruct g end; split; cbn; auto; intros; try discriminate; auto.
+  - destruct j as [|k]; [split; auto|].
+    match goal with |- PInv2 (if ?g then _ else _) => destruct g end; split; cbn; auto.
+Qed.
+
+Lemma pinv2_init : PInv2 pinit.
+Proof. split; cbn; intros; lia. Qed.
+
+Lemma prun_inv : forall fixed ls s, forallb (allowed fixed) ls = true -> PInv fixed s -> PInv2 s ->
+  PInv fixed (prun fixed s ls) /\ PInv2 (prun fixed s ls).
+Proof.
+  induction ls as [|l ls IH]; cbn; intros s A I I2; auto.
+  apply andb_true_iff in A. destruct A as [A1 A2].
+  apply IH; auto. - now apply pstep_inv. - eapply pstep_inv2; eauto.
+Qed.
+
+(* ---- the theorems --------------------------------------------------------------------------- *)
+Definition pool_safe (s : pst) : Prop :=
+  p_early s = false /\ p_dput s = false /\ p_reuse s = false /\
+  (forall k, p_runs s k <= 1 /\ (p_done s k = true -> p_runs s k = 1) /\
+             p_joined s k <= 1 /\ (p_joined s k = 1 -> p_done s k = true) /\
+             (p_next s <= k -> p_runs s k = 0)) /\
+  (* when the pooled thread is idle and the block is empty, every work item handed to the pool has run exactly once *)
+  (p_w s = WWait -> p_start s = SNone -> forall k, k < p_next s -> p_runs s k = 1 /\ p_done s k = true).
+
+Lemma pool_safe_of_inv : forall fixed s, PInv fixed s -> PInv2 s -> pool_safe s.
+Proof.
+  intros fixed s I [O Idle]. destruct (pi_flags _ _ I) as (a & b & c).
+  split; [exact a|split; [exact b|split; [exact c|split]]].
+  - intro k. destruct (pi_k _ _ I k) as (x1 & x2 & x3 & x4 & x5).
+    split; [exact x1|split; [exact x2|split; [exact x3|split]]].
+    + intro H. apply x4; auto.
+    + intro H. apply x5; auto.
+  - intros Hw Hs k Hk. destruct (pi_k _ _ I k) as (x1 & x2 & x3 & x4 & x5).
+    pose proof (Idle Hw Hs k Hk) as D. split; auto.
+Qed.
+
+(* the repaired hand-shake: every schedule, interrupts of the waiting threads included *)
+Lemma pool_exact_fixed_proof : forall ls, pool_safe (prun true pinit ls).
+Proof.
+  intro ls. destruct (prun_inv true ls pinit) as [I I2]; auto using pinv_init, pinv2_init.
+  - clear. induction ls; cbn; auto.
+  - eapply pool_safe_of_inv; eauto.
+Qed.
+
+(* the hand-shake as it is in the tree, provided no thread is interrupted while it waits in it *)
+Definition no_interrupt (l : plabel) : bool := match l with PIntW | PIntJ => false | _ => true end.
+Lemma pool_exact_nointr_proof : forall ls, forallb no_interrupt ls = true -> pool_safe (prun false pinit ls).
+Proof.
+  intros ls H. destruct (prun_inv false ls pinit) as [I I2]; auto using pinv_init, pinv2_init.
+  eapply pool_safe_of_inv; eauto.
+Qed.
+
+(* F24: as it is, an interrupt of the joining thread makes join return before the pooled entry function returned,
+   and the block is then handed to new work while the old work still runs *)
+Lemma pool_join_refuted_proof :
+  p_early (prun false pinit f24_witness) = true /\ p_done (prun false pinit f24_witness) 0 = false /\
+  p_joined (prun false pinit f24_witness) 0 = 1 /\ p_reuse (prun false pinit f24_witness2) = true.
+Proof. vm_compute. auto. Qed.
+(* the same schedules are harmless for the repaired code *)
+Example f24_fixed : p_early (prun true pinit f24_witness) = false /\ p_joined (prun true pinit f24_witness) 0 = 0 /\
+                    p_reuse (prun true pinit f24_witness2) = false.
+Proof. vm_compute. auto. Qed.
+(* non-vacuity: a complete joinable round and a complete non-joinable round *)
+Example pool_round :
+  let s := prun false pinit [PCreate true; PTake; PFinish; PAfter; PJoin 0; PWWake; PCreate false; PTake; PFinish; PAfter] in
+  p_runs s 0 = 1 /\ p_joined s 0 = 1 /\ p_runs s 1 = 1 /\ p_inpool s = true /\ p_next s = 2.
+Proof. vm_compute. auto. Qed.
